@@ -102,6 +102,27 @@ def joinedUnwrapped (srt : List Child → List Child) (cs : List Child) (all : L
     (off : Nat) (lim : Option Nat) : Graph :=
   assemble (window off lim (lojRows srt cs all)) []
 
+/-! composite primary keys: `_SelectInLoader._init_for_omit_join` -/
+
+/-- the child's foreign-key columns listed in the order of the PARENT's primary key:
+    `[pk_to_fk[col] for col in self.parent.primary_key if col in pk_to_fk]`.  `pkToFk` is
+    `local_remote_pairs`, in the order the join condition / ForeignKeyConstraint declares them. -/
+def fkColsPkOrder (pk : List Nat) (pkToFk : List (Nat × Nat)) : List Nat :=
+  pk.filterMap (fun c => pkToFk.lookup c)
+
+/-- what must NOT be used: the same columns in join-condition (declaration) order -/
+def fkColsJoinOrder (pk : List Nat) (pkToFk : List (Nat × Nat)) : List Nat :=
+  (pkToFk.filter (fun p => pk.contains p.1)).map (·.2)
+
+/-- key tuple of a row over the given columns -/
+def keyOf (cols : List Nat) (row : List Int) : List Int := cols.map (fun c => row.getD c 0)
+
+/-- selectin with tuple keys: `WHERE (fk cols) IN (parent key tuples)`, rows looked up by the
+    parent's key tuple (primary-key order) -/
+def selectinComposite (pkCols fkCols : List Nat) (parents children : List (List Int)) :
+    List (List Int × List (List Int)) :=
+  parents.map (fun p => (p, children.filter (fun c => keyOf fkCols c == keyOf pkCols p)))
+
 /-! many-to-one -/
 
 /-- scalar reference of a child: the parent whose key is the foreign key -/
